@@ -307,9 +307,11 @@ def points (ends gd : List Nat) : Option (List (Out Pt)) :=
 repeat flag: `count = (flags_iter.next().ok_or(OutOfBounds)? as usize + 1).min(n_points - i)`,
 `for f in &mut flags[i..i + count] { f.0 = flag_bits }`, `i += count`; otherwise
 `flags[i].0 = flag_bits; i += 1`; `if i == n_points { break }`.
+When the iterator is exhausted the loop ends; since `fix:` d12a1b2 `if i != n_points { return
+Err(OutOfBounds) }` follows (flags that end before every point has one).
 Returns `(read_flags_bytes, flags)`. -/
 def fastFlags (n : Nat) : List Nat → (rfb i : Nat) → (buf : List Nat) → R (Nat × List Nat)
-  | [], rfb, _, buf => .ok (rfb, buf)
+  | [], rfb, i, buf => if i = n then .ok (rfb, buf) else .err .oob
   | f :: rest, rfb, i, buf =>
     match addUsize rfb 1 with
     | none => .trap
@@ -378,7 +380,9 @@ def readPointsFast (ends gd : List Nat) (pl : Nat) (flags0 : List Nat) (mask : N
     if pl ≠ n ∨ flags0.length ≠ n then .err .invalidArrayLen
     else
       let c0 := Cur.init
-      match (c0.readArray gd (min n (c0.remainingBytes gd)) 1).1 with
+      -- `n_points.saturating_mul(2).min(cursor.remaining_bytes())` (`fix:` d12a1b2: a legal flag array
+      -- takes up to two bytes per point)
+      match (c0.readArray gd (min (min (2 * n) MAXU) (c0.remainingBytes gd)) 1).1 with
       | .error e => .err (ofRErr e)
       | .ok k =>
         match fastFlags n (gd.take k) 0 0 flags0 with
